@@ -3,4 +3,5 @@ CONSTANTS OFFBYONE = FALSE
   NULLZERO = FALSE
   KEYGEN0 = FALSE
   DECRYPTMEMBERS = FALSE
+  TRAILERMERGE = FALSE
 CHECK_DEADLOCK FALSE
